@@ -25,11 +25,15 @@ LEVEL_TEXT = ('All 7 numeric operators x all ordered pairs of 13 numeric '
               'against list literals; <range-in> with all four bracket '
               'combinations and values on, inside and outside both ends: '
               'match() must equal the documented meaning.')
-LEVEL_NOTE = ('Operands stay below 2^53 (the table says "float"). Malformed '
-              'specs (bad brackets, non-list values) are not classified.')
+LEVEL_NOTE = ('Numbers are compared as float() of both sides, as the table says (so '
+              'integers above 2^53 collapse onto their nearest double). Every spec is '
+              'also matched against its own text as the value. Malformed specs (bad '
+              'brackets, non-list values) are not classified.')
 
 NUMS = ['-1', '0', '1', '1.5', '2', '9', '09', '10', '1e1', '+1', '.5', '-0.5', '100',
-        '999999999', '1000000000', '4294967296', '4294967297', '2.0000000001', '2.0000000002']
+        '999999999', '1000000000', '4294967296', '4294967297', '2.0000000001', '2.0000000002',
+        # integers a double cannot hold: the table says float(), so neighbours collapse
+        '9007199254740992', '9007199254740993', '9007199254740994', '100000000000000001']
 NUM_OPS = {'=': operator.ge, '==': operator.eq, '!=': operator.ne, '<': operator.lt,
            '<=': operator.le, '>': operator.gt, '>=': operator.ge}
 STRS = ['a', 'b', 'ab', 'abc', 'B', '10', '9', '2.1.0', 'x-y', 'a,b', 'gcc', 'z_z', '\u00e9', 'caf\u00e9', '\u4e2d\u6587']
@@ -51,12 +55,28 @@ def call(value, spec):
     return out[0]
 
 
-def judge(acc, value, spec, want, kind):
+def judge(acc, value, spec, want, kind, self_want='no-true'):
     got = call(value, spec)
     acc.nontrivial('%s|%s' % (value, spec))
     if got[0] != 'ret' or bool(got[1]) is not want:
         acc.fail('%s' % kind, {'value': value, 'spec': spec, 'got': repr(got), 'want': want},
                  {'value': value, 'spec': spec, 'want': want})
+    # the same spec against a value that is the spec text itself (a relation
+    # between the two arguments no operand pool produces): the operator still
+    # compares the value with the *operand*. self_want is True/False where the
+    # table defines the answer, 'no-true' where the documented conversion of the
+    # value (float(), list literal) cannot succeed: then anything but "matches"
+    # is accepted.
+    acc.counters['evaluations'] += 1
+    got = call(spec, spec)
+    if self_want == 'no-true':
+        bad = got[0] == 'ret' and bool(got[1])
+    else:
+        bad = got[0] != 'ret' or bool(got[1]) is not self_want
+    if bad:
+        acc.fail('%s:value-is-the-spec-text' % kind,
+                 {'value': spec, 'spec': spec, 'got': repr(got), 'want': self_want},
+                 {'value': spec, 'spec': spec, 'want': self_want})
 
 
 def _num_case(vals, acc):
@@ -66,24 +86,28 @@ def _num_case(vals, acc):
 
 def _str_case(vals, acc):
     op, x, y, ws = vals
-    judge(acc, x, ws % (op, y), STR_OPS[op](x, y), 'string:' + op)
+    spec = ws % (op, y)
+    judge(acc, x, spec, STR_OPS[op](x, y), 'string:' + op, self_want=STR_OPS[op](spec, y))
 
 
 def _plain_case(vals, acc):
     x, y = vals
     acc.counters['evaluations'] += 2          # three (value, spec) pairs per case
-    judge(acc, x, y, x == y, 'plain-equality')
-    judge(acc, x, '<in> ' + y, y in x, '<in>')
-    judge(acc, x + y + x, '<in> %s' % y, True, '<in>')
+    judge(acc, x, y, x == y, 'plain-equality', self_want=True)
+    judge(acc, x, '<in> ' + y, y in x, '<in>', self_want=True)
+    judge(acc, x + y + x, '<in> %s' % y, True, '<in>', self_want=True)
 
 
 def _or_case(vals, acc):
     x, alts = vals
     spec = ' '.join('<or> ' + a for a in alts)
-    judge(acc, x, spec, x in alts, '<or>')
+    judge(acc, x, spec, x in alts, '<or>', self_want=False)
 
 
-LISTS = ["['aes']", "['aes', 'mmx']", "['aes', 'mmx', 'sse']", "[]", "['mmx']"]
+LISTS = ["['aes']", "['aes', 'mmx']", "['aes', 'mmx', 'sse']", "[]", "['mmx']",
+         # legal list literals whose elements are not all strings / not hashable
+         "[[], 'aes']", "[{'avx': 1}, 'aes', 'mmx']", "[('aes',), 'mmx']", "[1, 'aes', None]",
+         "['aes', ['mmx'], {'avx'}]", "[[['aes']]]"]
 ITEMS = ['aes', 'mmx', 'avx']
 
 
@@ -122,6 +146,9 @@ def run(ctx):
     vals = ['9', '10', '10.0', '10.5', '15', '19.999', '20', '20.0', '21', '-5', '1e1', '2e1']
     E.run(rep, 'range-in', [['[', '('], [']', ')'], ['10', '10.0', '-5', '20'], ['20', '20.0', '10', '1e1'],
                             vals], _range_case)
+    big = ['9007199254740991', '9007199254740992', '9007199254740993', '9007199254740994',
+           '100000000000000000', '100000000000000001', '1']
+    E.run(rep, 'range-in-big', [['[', '('], [']', ')'], big, big, big], _range_case)
     rep.sample({'value': '20', 'spec': '<range-in> ( 10 20 )', 'want': False})
     rep.sample({'value': '3', 'spec': '>= -1', 'want': True})
     rep.sample({'value': "['aes']", 'spec': '<all-in> aes aes', 'want': True})
